@@ -47,6 +47,14 @@ access(all) struct P {
     access(all) fun setN(_ v: Int) { self.n = v }
     access(all) view fun getN(): Int { return self.n }
 }
+access(all) struct RefHolder {
+    access(all) var r: auth(Mutate) &[Int]
+    view init(_ r: auth(Mutate) &[Int]) { self.r = r }
+}
+access(all) struct DictRefHolder {
+    access(all) var r: auth(Mutate) &{String: Int}
+    view init(_ r: auth(Mutate) &{String: Int}) { self.r = r }
+}
 access(all) attachment A for P {
     access(all) var k: Int
     view init() { self.k = 1 }
@@ -176,7 +184,8 @@ func (p *c07prog) hostPieces(view bool) (decl, setup, call, snap, teardown strin
 		snap = structSnap + "\nlog(host.r2.uuid)\nlog(host.rsd.keys)"
 		teardown = "destroy host"
 	case hostInit:
-		decl = fmt.Sprintf("access(all) struct HI {\n    access(all) var n: Int\n    %sinit(%s) {\n        self.n = a\n%s\n    }\n}\n", v, c07Params, indent(p.body(view), "        "))
+		decl = fmt.Sprintf("access(all) struct HI {\n    access(all) var n: Int\n    access(all) var fra: auth(Mutate) &[Int]\n    access(all) var frd: auth(Mutate) &{String: Int}\n    access(all) var fras: [auth(Mutate) &[Int]]\n    access(all) var fp: P\n    access(all) var fown: [Int]\n"+
+			"    %sinit(%s) {\n        self.n = a\n        self.fra = ra\n        self.frd = rd\n        self.fras = [ra]\n        self.fp = s\n        self.fown = arr\n%s\n    }\n}\n", v, c07Params, indent(p.body(view), "        "))
 		call = fmt.Sprintf("r = HI(%s).n", c07Args(true))
 	case hostClosure:
 		setup = fmt.Sprintf("let v = %sfun (%s): Int {\n%s\n    return a\n}", v, c07Params, indent(p.body(view), "    "))
@@ -326,6 +335,9 @@ func (e *c07entry) validFor(layoutC bool, host int) bool {
 	}
 	selfHost := host == hostStruct || host == hostRes || host == hostPre || host == hostPost
 	if e.needSelf && !selfHost {
+		return false
+	}
+	if e.needInit && host != hostInit {
 		return false
 	}
 	if e.needRes && host != hostRes {
